@@ -1646,18 +1646,20 @@ static void generate_enum_definitions(Environment *env, StringBuilder *sb) {
         /* Get prefixed enum name */
         const char *prefixed_enum = get_prefixed_type_name(edef->name);
         
-        /* Generate typedef enum with prefixed variants */
-        sb_appendf(sb, "typedef enum {\n");
+        /* An enum constant is the integer of its definition and the language's int is 64-bit (spec 3.4.2, 3.1).
+         * A C enum does not give that: its constants have type int (sums of two of them wrap at 32 bits) and a
+         * variable of the enum type is UNSIGNED int whenever no constant is negative ((- a b) with a < b printed
+         * 4294967295, (< (- a b) 0) did not compile).  Keep the type name and the constant names, make both
+         * int64_t; the constants stay integer constant expressions (case labels of the name table). */
+        sb_appendf(sb, "typedef int64_t %s;\n", prefixed_enum);
         for (int j = 0; j < edef->variant_count; j++) {
             /* Prefix variants: nl_EnumName_VARIANT */
             const char *prefixed_variant = get_prefixed_variant_name(edef->name, edef->variant_names[j]);
-            sb_appendf(sb, "    %s = %d",
+            sb_appendf(sb, "#define %s ((int64_t)%dLL)\n",
                       prefixed_variant,
                       edef->variant_values[j]);
-            if (j < edef->variant_count - 1) sb_append(sb, ",\n");
-            else sb_append(sb, "\n");
         }
-        sb_appendf(sb, "} %s;\n\n", prefixed_enum);
+        sb_append(sb, "\n");
     }
     sb_append(sb, "/* ========== End Enum Definitions ========== */\n\n");
 }
